@@ -224,34 +224,46 @@ Fixpoint skeleton_doc (d : doc) : doc :=
   match d with [] => [] | (k, x) :: r =>
     match skeleton x with Some y => (k, y) :: skeleton_doc r | None => skeleton_doc r end end.
 
-(* ---- bson_hash.go: the byte string fed to FNV and the metric count ---- *)
+(* ---- bson_hash.go: the byte string fed to FNV and the metric count ----
+   Every path component is introduced by a zero byte and a dot, every container announces itself with its path, a zero
+   byte and '{' or '[', every metric with its path, a zero byte and ';' (field names hold no zero byte). *)
+Definition mark_doc : bytes := [0; 123]%N.
+Definition mark_arr : bytes := [0; 91]%N.
+Definition mark_leaf : bytes := [0; 59]%N.
+Definition comp (key k : bytes) : bytes := key ++ 0%N :: dot :: k.
+
 Fixpoint hash_keys (key : bytes) (v : value) : list bytes * Z :=
   match v with
   | VArr a =>
+      let '(ks, n) :=
       (fix go (i : N) (l : list value) : list bytes * Z :=
          match l with
          | [] => ([], 0)
-         | x :: r => let '(k1, n1) := hash_keys (key ++ dot :: dec_digits i) x in
+         | x :: r => let '(k1, n1) := hash_keys (comp key (dec_digits i)) x in
                      let '(k2, n2) := go (i + 1)%N r in (k1 ++ k2, n1 + n2)
-         end) 0%N a
+         end) 0%N a in ((key ++ mark_arr) :: ks, n)
   | VDoc d =>
+      let '(ks, n) :=
       (fix go (l : list (bytes * value)) : list bytes * Z :=
          match l with
          | [] => ([], 0)
-         | (k, x) :: r => let '(k1, n1) := hash_keys (key ++ dot :: k) x in
+         | (k, x) :: r => let '(k1, n1) := hash_keys (comp key k) x in
                           let '(k2, n2) := go r in (k1 ++ k2, n1 + n2)
-         end) d
-  | VBool _ | VDouble _ | VInt32 _ | VInt64 _ | VDateTime _ => ([key], 1)
-  | VTimestamp _ _ => ([key], 2)
+         end) d in ((key ++ mark_doc) :: ks, n)
+  | VBool _ | VDouble _ | VInt32 _ | VInt64 _ | VDateTime _ => ([key ++ mark_leaf], 1)
+  | VTimestamp _ _ => ([key ++ mark_leaf], 2)
   | _ => ([], 0)
   end.
 
-Fixpoint hash_keys_doc (d : doc) : list bytes * Z :=
+Fixpoint hash_keys_fields (d : doc) : list bytes * Z :=
   match d with
   | [] => ([], 0)
-  | (k, x) :: r => let '(k1, n1) := hash_keys (dot :: k) x in
-                   let '(k2, n2) := hash_keys_doc r in (k1 ++ k2, n1 + n2)
+  | (k, x) :: r => let '(k1, n1) := hash_keys (comp [] k) x in
+                   let '(k2, n2) := hash_keys_fields r in (k1 ++ k2, n1 + n2)
   end.
+
+Definition hash_keys_doc (d : doc) : list bytes * Z :=
+  let '(ks, n) := hash_keys_fields d in (mark_doc :: ks, n).
 
 (* what FNV sees: the concatenation of the written keys (hash.Write appends) *)
 Definition schema_sig (d : doc) : bytes * Z :=
